@@ -849,14 +849,24 @@ func (l *Local) Dispose(n int) int {
 	}
 
 	// 3. dispose idle
-	left := min(len(l.ipv4.Idles()), n)
+	// the primary ip can not be disposed, do not count it, or it absorbs what other ip or eni should give up
+	disposable := func(s Set) int {
+		count := 0
+		for _, v := range s {
+			if !v.InUse() && !v.Deleting() && !v.Primary() {
+				count++
+			}
+		}
+		return count
+	}
+	left := min(disposable(l.ipv4), n)
 
 	for i := 0; i < left; i++ {
 		for _, v := range l.ipv4 {
-			if v.InUse() || v.Deleting() {
+			if v.InUse() || v.Deleting() || v.Primary() {
 				continue
 			}
-			v.Dispose() // small problem for primary ip
+			v.Dispose()
 			metric.ResourcePoolIdle.WithLabelValues(metric.ResourcePoolTypeLocal, string(types.IPStackIPv4)).Dec()
 			metric.ResourcePoolTotal.WithLabelValues(metric.ResourcePoolTypeLocal, string(types.IPStackIPv4)).Dec()
 			metric.ResourcePoolDisposed.WithLabelValues(metric.ResourcePoolTypeLocal, string(types.IPStackIPv4)).Inc()
@@ -864,7 +874,7 @@ func (l *Local) Dispose(n int) int {
 		}
 	}
 
-	left6 := min(len(l.ipv6.Idles()), n)
+	left6 := min(disposable(l.ipv6), n)
 
 	for i := 0; i < left6; i++ {
 		for _, v := range l.ipv6 {
